@@ -571,8 +571,15 @@ func c01assemble(c *Ctx, a *procAnchors) {
 		})
 		// body of the published VAA is ourVAA of the same entry (field-for-field copy is C02.body-copy)
 		src, _ := fieldLoad(vals["EmitterChain"])
+		srcDesc := termOrNil(vals["EmitterChain"])
+		if vals["EmitterChain"] == nil {
+			// `signed := *entry.ourVAA; signed.Signatures = …`: the body comes with the struct copy
+			if w := wholeCopyOf(al); w != nil {
+				src, srcDesc = w, "*"+facts.Term(w)
+			}
+		}
 		_, of := fieldLoad(src)
-		R.Check("C01.assemble", R.Key("C01.assemble", shortFn(s.Fn), construct+":body-source"), c.sitePos(p, s), "published body is read from entry.ourVAA", of == a.vs["ourVAA"], "EmitterChain source = "+termOrNil(vals["EmitterChain"]))
+		R.Check("C01.assemble", R.Key("C01.assemble", shortFn(s.Fn), construct+":body-source"), c.sitePos(p, s), "published body is read from entry.ourVAA", of == a.vs["ourVAA"], "EmitterChain source = "+srcDesc)
 	}
 	// the guardian set used is the entry snapshot when present, else p.gs
 	R.Note("guardian set selection in handleObservation: %s", "phi{entry.gs | p.gs} — entry snapshot when non-nil, current set otherwise (C03.obs checks membership against the same value)")
